@@ -34,6 +34,11 @@ theorem refill_anchor (b : Buf) (nmin : Nat) (h : WF b) :
             (b.anchor = none → b1.anchor = none) ∧ b.base ≤ b1.base := by
           intro b1 hb1
           unfold shiftLeft at hb1
+          by_cases hpin : pinned b = true
+          · rw [if_pos hpin] at hb1; cases hb1
+            exact ⟨rfl, rfl, (fun x => x), Nat.le_refl _⟩
+          rw [if_neg hpin] at hb1
+          unfold shiftLeft0 at hb1
           split at hb1
           · cases ha : b.anchor with
             | none =>
@@ -57,7 +62,7 @@ theorem refill_anchor (b : Buf) (nmin : Nat) (h : WF b) :
         obtain ⟨k1, k2, k3, k4⟩ := key b1 hb1
         rw [hb1]
         have g : (grow b1).anchor = b1.anchor ∧ (grow b1).base = b1.base ∧ (grow b1).nanchor = b1.nanchor := by
-          unfold grow; split <;> exact ⟨rfl, rfl, rfl⟩
+          unfold grow growR grow0; split <;> split <;> exact ⟨rfl, rfl, rfl⟩
         have l : (load (grow b1)).2.anchor = (grow b1).anchor ∧ (load (grow b1)).2.base = (grow b1).base ∧
             (load (grow b1)).2.nanchor = (grow b1).nanchor := ⟨rfl, rfl, rfl⟩
         refine ⟨?_, ?_, ?_, ?_, ?_⟩
